@@ -316,9 +316,12 @@ func (e *agentEngine) Setup(r *Run) {
 	if r.Pct(20, "zero-time") {
 		e.times[0] = time.Time{} // the zero time is just the earliest instant
 	}
+	if r.Pct(20, "far-future") {
+		e.times[len(e.times)-1] = time.Date(9999, 12, 31, 23, 59, 59, 0, time.UTC) // a "never" deadline
+	}
 	if r.Pct(20, "close-times") {
 		// instants one nanosecond apart: the comparison must be exact
-		for i := 1; i < len(e.times); i++ {
+		for i := 1; i < len(e.times)-1; i++ {
 			e.times[i] = base.Add(time.Duration(i))
 		}
 	}
@@ -513,6 +516,8 @@ func (e *agentEngine) doOp(tk *verifrt.Task, in aInput, depth int) {
 		err = e.agent.StopWithError(e.ids[in.ID], e.errs[in.Err])
 	case aProcess:
 		op.msg = &stun.Message{TransactionID: e.ids[in.ID]}
+		// any class of message may carry the id
+		op.msg.Type = stun.NewType(stun.MethodBinding, []stun.MessageClass{stun.ClassRequest, stun.ClassIndication, stun.ClassSuccessResponse, stun.ClassErrorResponse}[r.Choose(4, "msg-class")])
 		err = e.agent.Process(op.msg)
 	case aCollect:
 		err = e.agent.Collect(e.times[in.T])
